@@ -1,8 +1,13 @@
 ---- MODULE DualS3 ----
 (* cmd/broker/s3_dual.go: dualS3Client{write: primary, read: replica}.  One action per method of the   *)
 (* client (each is a straight-line sequence of at most two backend calls), plus environment actions    *)
-(* that change what the replica holds for an object (present / absent = not yet replicated or lagging  *)
-(* / failing) and whether the primary bucket answers at all.                                           *)
+(* that change what the replica does for an object: present / absent (not yet replicated, lagging:     *)
+(* a not-found error) / failing (generic error) / timeout, canceled (the replica's own deadline- or     *)
+(* cancel-class error while the caller's context is alive) / stalled (the replica blocks until the      *)
+(* context it was handed is done), and whether the primary bucket answers at all.  Both buckets honour  *)
+(* the context they are handed: a call on a context that is already done fails with the context error. *)
+(* Every client call is made with a caller deadline; `alive` = the caller's context is still alive when *)
+(* the call returns (a read that used up the caller's own deadline owes the caller nothing).           *)
 (* Write-once assumption (DESIGN §4 C44): the content of an object is a function of its key, so a     *)
 (* replica copy that exists holds exactly the bytes the primary holds or held.                         *)
 EXTENDS Integers, Sequences, FiniteSets, TLC, Json
@@ -10,16 +15,20 @@ CONSTANTS Keys,                  \* subset of {"k1","k2","k3"}; a key names a se
           ContentLen,            \* every object is ContentLen bytes long
           Ranges,                \* byte ranges <<start,end>> (inclusive, 0-based) offered to DownloadSegment besides "no range" <<>>
           MaxOps,
+          RepStates,             \* replica states offered to SetRep (subset of AllRepStates)
           DevNoFallback,         \* deviation: replica error is returned, primary never asked
           DevFallbackDropsRange, \* deviation: the fallback read asks the primary for the whole object
           DevIndexNoFallback,    \* deviation: only DownloadSegment falls back
           DevWriteToReplica,     \* deviation: UploadSegment goes to the read client
-          DevListFromReplica     \* deviation: ListSegments asks the read client
+          DevListFromReplica,    \* deviation: ListSegments asks the read client
+          DevNoFallbackOnCtxErr, \* deviation: a cancel/deadline-class error of the REPLICA ends the read (the caller's ctx is not consulted)
+          DevReplicaTimeoutShadows \* deviation: a replica read timeout derived with ctx := WithTimeout(ctx) shadows the caller's ctx, so the fallback runs on the expired context
 VARIABLES prim, primFail, rep, written, last, hist
 vars == <<prim, primFail, rep, written, last, hist>>
 
 R_small == {<<0, 1>>, <<2, 9>>, <<7, 9>>}                           \* inside, clamped at the end, entirely past the end
 R_big == {<<0, 1>>, <<1, 2>>, <<2, 9>>, <<3, 3>>, <<7, 9>>}
+AllRepStates == {"present", "absent", "failing", "timeout", "canceled", "stalled"}
 Kinds == {"seg", "idx"}
 KeyNum == [k \in {"k1", "k2", "k3"} |-> CASE k = "k1" -> 1 [] k = "k2" -> 2 [] OTHER -> 3]
 Content(kind, k) == [i \in 1..ContentLen |-> KeyNum[k] * 32 + (IF kind = "idx" THEN 16 ELSE 0) + i]
@@ -30,7 +39,8 @@ Slice(c, rng) ==
            e == IF rng[2] >= Len(c) THEN Len(c) - 1 ELSE rng[2]
        IN IF s > e \/ s >= Len(c) THEN Err ELSE [ok |-> TRUE, bytes |-> SubSeq(c, s + 1, e + 1)]
 
-PrimRead(kind, k, rng) == IF primFail \/ ~prim[kind][k] THEN Err ELSE Slice(Content(kind, k), rng)
+PrimRead(kind, k, rng) == IF primFail \/ ~prim[kind][k] THEN Err ELSE Slice(Content(kind, k), rng)   \* on a live context
+PrimReadCtx(kind, k, rng, ctxDone) == IF ctxDone THEN Err ELSE PrimRead(kind, k, rng)
 RepRead(kind, k, rng) == IF rep[kind][k] = "present" THEN Slice(Content(kind, k), rng) ELSE Err
 PrimList == {k \in Keys : prim["seg"][k]}
 RepList == {k \in Keys : rep["seg"][k] = "present"}
@@ -38,7 +48,8 @@ SetToSeq(S) == LET RECURSIVE F(_) F(T) == IF T = {} THEN <<>> ELSE LET x == CHOO
 
 KindOf(op) == IF op \in {"UploadIndex", "DeleteIndex", "DownloadIndex"} THEN "idx" ELSE "seg"
 Call(b, op, k, rng) == [b |-> b, op |-> op, k |-> k, rng |-> rng]
-Res(op, k, rng, ok, bytes, listed, calls) == [op |-> op, k |-> k, rng |-> rng, ok |-> ok, bytes |-> bytes, listed |-> listed, calls |-> calls]
+ResA(op, k, rng, ok, bytes, listed, calls, alive) == [op |-> op, k |-> k, rng |-> rng, ok |-> ok, bytes |-> bytes, listed |-> listed, calls |-> calls, alive |-> alive]
+Res(op, k, rng, ok, bytes, listed, calls) == ResA(op, k, rng, ok, bytes, listed, calls, TRUE)
 
 Init == /\ prim = [kd \in Kinds |-> [k \in Keys |-> FALSE]] /\ primFail = FALSE
         /\ rep = [kd \in Kinds |-> [k \in Keys |-> "absent"]]
@@ -69,14 +80,20 @@ Delete(op, k) ==
 
 Download(op, k, rng) ==
   LET kind == KindOf(op)
+      st == rep[kind][k]
       r1 == RepRead(kind, k, rng)
-      nofb == DevNoFallback \/ (DevIndexNoFallback /\ op = "DownloadIndex")
+      ctxClass == st \in {"timeout", "canceled", "stalled"}      \* the replica's error is a cancel/deadline-class error
+      nofb == DevNoFallback \/ (DevIndexNoFallback /\ op = "DownloadIndex") \/ (DevNoFallbackOnCtxErr /\ ctxClass)
       rng2 == IF DevFallbackDropsRange THEN <<>> ELSE rng
-      r2 == PrimRead(kind, k, rng2) IN
+      \* a stalled replica returns when the context it was handed is done: the caller's own context on this tree,
+      \* the derived 2 s context under DevReplicaTimeoutShadows (then the caller is still alive, but the fallback
+      \* inherits the expired derived context)
+      alive == (st # "stalled") \/ DevReplicaTimeoutShadows
+      r2 == PrimReadCtx(kind, k, rng2, st = "stalled") IN
   /\ Step([a |-> op, k |-> k, rng |-> rng])
   /\ IF r1.ok \/ nofb
-     THEN last' = Res(op, k, rng, r1.ok, r1.bytes, <<>>, <<Call("R", op, k, rng)>>)
-     ELSE last' = Res(op, k, rng, r2.ok, r2.bytes, <<>>, <<Call("R", op, k, rng), Call("P", op, k, rng2)>>)
+     THEN last' = ResA(op, k, rng, r1.ok, r1.bytes, <<>>, <<Call("R", op, k, rng)>>, alive)
+     ELSE last' = ResA(op, k, rng, r2.ok, r2.bytes, <<>>, <<Call("R", op, k, rng), Call("P", op, k, rng2)>>, alive)
   /\ UNCHANGED <<prim, primFail, rep, written>>
 
 List ==
@@ -110,7 +127,7 @@ Next == \/ \E k \in Keys : \/ Upload("UploadSegment", k) \/ Upload("UploadIndex"
                            \/ Delete("DeleteSegment", k) \/ Delete("DeleteIndex", k)
                            \/ \E rng \in Ranges \cup {<<>>} : Download("DownloadSegment", k, rng)
                            \/ Download("DownloadIndex", k, <<>>)
-                           \/ \E kind \in Kinds, s \in {"present", "absent", "failing"} : SetRep(kind, k, s)
+                           \/ \E kind \in Kinds, s \in RepStates : SetRep(kind, k, s)
         \/ List \/ Ensure
         \/ \E on \in BOOLEAN : SetPrimFail(on)
 Spec == Init /\ [][Next]_vars
